@@ -435,6 +435,9 @@ Value Endgame<kKBPsKB>::strongSideScore(const Position& position) const
     const Square weakKingSq = normalize(position.piece_position(make_piece(weakSide, KING)), strongSide);
     const Square strongBishopSq = normalize(position.piece_position(make_piece(strongSide, BISHOP)), strongSide);
     const Square weakBishopSq = normalize(position.piece_position(make_piece(weakSide, BISHOP)), strongSide);
+    // attacks must be looked up on the real board, not on the normalised squares
+    const Bitboard weakBishopAttacks = slider_attack<BISHOP>(
+        position.piece_position(make_piece(weakSide, BISHOP)), position.pieces());
 
     /*
      * In draw cases try to not lose pawns and push them if possible
@@ -474,11 +477,11 @@ Value Endgame<kKBPsKB>::strongSideScore(const Position& position) const
                 const Square block2Sq = make_square(rank(furthestPawnSq), file2);
                 if (weakKingSq ==  block1Sq &&
                         (weakBishopSq == block2Sq ||
-                         slider_attack<BISHOP>(weakBishopSq, position.pieces()) & square_bb(block2Sq)))
+                         weakBishopAttacks & square_bb(normalize(block2Sq, strongSide))))
                     return VALUE_POSITIVE_DRAW + 10 * Value(popcount(pawns)) + 2 * Value(rank(furthestPawnSq));
                 if (weakKingSq == block2Sq &&
                         (weakBishopSq == block1Sq ||
-                         slider_attack<BISHOP>(weakBishopSq, position.pieces()) & square_bb(block1Sq)))
+                         weakBishopAttacks & square_bb(normalize(block1Sq, strongSide))))
                     return VALUE_POSITIVE_DRAW + 10 * Value(popcount(pawns)) + 2 * Value(rank(furthestPawnSq));
             }
         }
